@@ -113,7 +113,7 @@ def run(run):
             for n in T.walk(arms[0]["b"]):
                 if T.is_call(n, "remove"):
                     order.append("kill")
-                elif T.is_call(n, "insert"):
+                elif T.is_call(n, ("insert", "extend", "append", "extend_from_slice")):
                     order.append("gen")
             if "kill" not in order:
                 run.violated("R1", key, "the defined variable of Def::%s is not removed from the alive set" % v, F.loc(arms[0]["b"]))
